@@ -128,7 +128,7 @@ package yubiattest
 //@   n == 0 ? 99 : n == 1 ? 98 : n == 2 ? 100 : n == 3 ? 101 : n == 4 ? 102 : n == 5 ? 103 : n == 6 ? 104 : n == 7 ? 105 :
 //@   n == 8 ? 106 : n == 9 ? 107 : n == 10 ? 108 : n == 11 ? 110 : n == 12 ? 114 : n == 13 ? 116 : n == 14 ? 117 : 118
 //@ # i-th ModHex character (i in 0..7) of a serial of n bytes (n = 3: two leading 'c'), s/soff: the serial bytes
-//@ ghost func mhAt(s bytes, soff int, n int, i int) int =
+//@ ghost pure func mhAt(s bytes, soff int, n int, i int) int =
 //@   i < 8 - 2 * n ? 99 :
 //@   (i - (8 - 2 * n)) % 2 == 0 ? mhchar(s[soff + (i - (8 - 2 * n)) / 2] / 16) : mhchar(s[soff + (i - (8 - 2 * n)) / 2] % 16)
 //@ ghost func isSerialExt(cert *x509.Certificate, j int) bool =
